@@ -4,8 +4,13 @@ use crate::error::{RecvError, TryRecvError, TrySendError};
 use core::task::{Context, Poll};
 use std::fmt;
 use std::mem::MaybeUninit;
+#[cfg(not(all(excsn_fibre_verif, not(loom))))]
 use std::sync::atomic::{AtomicBool, AtomicUsize, Ordering};
+#[cfg(not(all(excsn_fibre_verif, not(loom))))]
 use parking_lot::Mutex;
+// Verification build: the same primitives with scheduling points (see internal/sync/verif.rs).
+#[cfg(all(excsn_fibre_verif, not(loom)))]
+use crate::internal::sync::{AtomicBool, AtomicUsize, Mutex, Ordering};
 
 // State constants for OneShotShared::state
 pub(super) const STATE_EMPTY: usize = 0; // No value, receiver may be waiting. Initial state.
